@@ -354,4 +354,22 @@ def culpritsOf (sc : Script) : ErrKind → List Bytes
   | .protoAbort cs => cs
   | .stopped => [sc.self]
 
+/-- the API of a handler -/
+inductive Call where
+  | accept (m : Msg)
+  | canAccept (m : Msg)
+  | listen
+  | result
+  | stop
+  deriving Repr
+
+/-- effect of a call on the handler state (CanAccept / Listen / Result only read) -/
+def apply (H : Bytes → Bytes) (s : State) : Call → State
+  | .accept m => accept H s m
+  | .stop => stop s
+  | _ => s
+
+/-- any sequence of API calls on a freshly created handler -/
+def run (H : Bytes → Bytes) (sc : Script) (calls : List Call) : State := calls.foldl (apply H) (init H sc)
+
 end Mps.Handler
